@@ -23,6 +23,9 @@
 #include "EbThreads.h"
 #include "EbUtility.h"
 #include "EbEncHandle.h"
+#ifdef SVT_AV1_VERIF
+#include "EbVerifHooks.h"
+#endif
 #include "EbPictureControlSet.h"
 #include "EbPictureOperators.h"
 #include "EbReferenceObject.h"
@@ -3823,6 +3826,9 @@ void lib_svt_encoder_send_error_exit(
     EbObjectWrapper      *eb_wrapper_ptr = NULL;
     EbBufferHeaderType    *output_packet;
 
+#ifdef SVT_AV1_VERIF
+    SVT_VERIF_EVENT(SVT_VERIF_EV_ENC_FATAL, error_code, 0, 0, 0);
+#endif
     svt_get_empty_object(
         enc_handle->output_stream_buffer_consumer_fifo_ptr,
         &eb_wrapper_ptr);
